@@ -301,10 +301,59 @@ def selection_specs(rng, obj):
         specs.append([a, e, b, a])
         specs.append([[e], a, [b, [e]]])
         specs.append([a, "AM241" if "AM241" not in here else "CM245"])   # a valid nuclide that is absent
+    # the empty selection selects NOTHING (None selects everything); lists that resolve to nothing
+    specs.append([])
+    specs.append([[], []])
+    gone = [e for e in ("XE", "PU", "CM", "KR") if not any(
+        nuclideBases.byName[n].element.symbol == e for n in here if getattr(nuclideBases.byName[n], "element", None))]
+    if gone:
+        specs.append(rng.choice(gone))                # element symbol, none of its isotopes present
+        specs.append([gone[0], []])
     return specs
 
 
-def add_selection(ctx, mir, what, case, obj, path, spec):
+def complement_and_getters(ctx, mir, what, case, obj, path):
+    """a selection and its complement sum to the total; getHMMass / getFPMass are the masses of exactly the heavy-metal /
+    lumped-fission-product nuclides present (0 when there are none)"""
+    from armi.nucDirectory import nucDir
+
+    rng = ctx.rng
+    here = sorted(obj.getNuclides())
+    tot = float(obj.getMass())
+    lvl = level_of(obj)
+    if here and not ambiguous(obj):
+        sel = rng.sample(here, rng.choice([0, len(here), rng.randint(0, len(here))]) if rng.random() < 0.3
+                         else rng.randint(0, len(here)))
+        rest = [n for n in here if n not in sel]
+        m1, m2 = float(obj.getMass(sel)), float(obj.getMass(rest))
+        if not fclose(m1 + m2, tot, scale=abs(tot) * 1e-9):
+            ctx.fail(f"selection-complement-{lvl}", "getMass(selection) + getMass(complement) == getMass()",
+                     dict(case, selection=sel[:6], n_selected=len(sel), n_rest=len(rest)), observed=m1 + m2, expected=tot)
+        for part in (sel, rest):
+            add_selection(ctx, mir, what + " (complement pair)", case, obj, path, part, mf_too=lvl in ("component", "block"))
+        ctx.count(f"selection complement pair @{lvl}" + (" (one side empty)" if not sel or not rest else ""))
+    hm = [n for n in obj.getNuclides() if nucDir.isHeavyMetal(n)]
+    fp = [n for n in obj.getNuclides() if "LFP" in n]
+    for name, getter, lst in (("getHMMass", obj.getHMMass, hm), ("getFPMass", obj.getFPMass, fp)):
+        val = float(getter())
+        if lvl == "core" and not ctx.thorough and lst:
+            want = val      # quick: the whole-core leaf sum is left to the thorough tier (correspondence still runs)
+        else:
+            want = sum(float(c.getMass(n)) for c in leaves(obj) for n in c.getNuclides() if n in lst) if lst else 0.0
+        if not fclose(val, want, scale=abs(tot) * 1e-9):
+            ctx.fail(f"{name}-{lvl}", f"{name}() == mass of the {'heavy-metal' if name == 'getHMMass' else 'fission-product'} "
+                     "nuclides present (0 when there are none)", dict(case, nuclides=sorted(lst)[:6]), observed=val, expected=want)
+        ids = mir.spec_ids(sorted(lst))
+
+        def check(line, val=val, name=name):
+            if line in ("reject", "bad-op") or not rel_close(val, common.unrat(line), scale=abs(tot) * 1e-9):
+                ctx.disagree(what + f" ({name})", dict(case, nuclides=sorted(lst)[:6]), line, val)
+
+        mir.emit(f"masssel {pth(path)} {intlist(ids)}", check)
+        ctx.count(f"{name} @{lvl}: " + ("none present" if not lst else "present"))
+
+
+def add_selection(ctx, mir, what, case, obj, path, spec, mf_too=True):
     """getMass(spec) (and getMassFrac for a single name) vs Model massSel / massFracSel"""
     ids = mir.spec_ids(spec)
     val = float(obj.getMass(spec))
@@ -316,7 +365,10 @@ def add_selection(ctx, mir, what, case, obj, path, spec):
             ctx.disagree(what, scase, line if line in ("reject", "bad-op") else float(common.unrat(line)), val)
 
     mir.emit(f"masssel {pth(path)} {intlist(ids)}", check)
-    if not comp_empty(obj):
+    lvl_ = level_of(obj)
+    if not ctx.thorough and (lvl_ == "core" and not isinstance(spec, str) or lvl_ == "assembly" and ctx.rng.random() < 0.5):
+        mf_too = False      # a composite-level mass-fraction vector costs one homogenisation per nuclide on both sides
+    if mf_too and not comp_empty(obj):
         try:
             mf = float(obj.getMassFrac(spec))
         except Exception:
@@ -796,9 +848,10 @@ def do_edit(ctx, mir, paths, obj, op, a, label, step):
                  o, paths[id(o)], [n for n in nucs if n not in amb])
         if level_of(o) == "component":
             add_comp_density(ctx, mir, f"{label}: Comp.density vs Component.density after {op}", case, o)
-        sp = rng.choice(selection_specs(rng, o))
-        add_selection(ctx, mir, f"{label}: massSel vs getMass(selection) after {op}", dict(case, observed_at=level_of(o)),
-                      o, paths[id(o)], sp)
+        sps = selection_specs(rng, o)
+        for sp in (rng.choice(sps[-4:] if rng.random() < 0.5 else sps),):
+            add_selection(ctx, mir, f"{label}: massSel vs getMass(selection) after {op}", dict(case, observed_at=level_of(o)),
+                          o, paths[id(o)], sp)
         # atoms of the touched nuclides first, then a few others
         additivity(o, fail, ([n for n in touched if n in o.getNuclides()] + nucs)[:4])
     return res
@@ -954,11 +1007,14 @@ def run_core(ctx, r):
                      b, paths[id(b)], bn)
             add_volfracs(ctx, mir, "core: Node.volFrac vs Block.getVolumeFractions",
                          dict(case, block=b.name, sym=b.getSymmetryFactor()), b, paths[id(b)])
-            for spec in selection_specs(rng, b)[:5]:
+            complement_and_getters(ctx, mir, "core: massSel vs Block.getMass", dict(case, block=b.name), b, paths[id(b)])
+            for spec in selection_specs(rng, b)[:3] + selection_specs(rng, b)[-4:]:
                 add_selection(ctx, mir, "core: massSel vs Block.getMass(selection)", dict(case, block=b.name), b, paths[id(b)], spec)
                 ctx.count("selection " + ("element/name" if isinstance(spec, str) else "list") + " @block")
             cc = rng.choice(list(b))
-            for spec in selection_specs(rng, cc)[:3]:
+            complement_and_getters(ctx, mir, "core: massSel vs Component.getMass", dict(case, block=b.name, comp=cc.name), cc,
+                                   paths[id(cc)])
+            for spec in selection_specs(rng, cc)[:2] + selection_specs(rng, cc)[-4:]:
                 add_selection(ctx, mir, "core: massSel vs Component.getMass(selection)", dict(case, block=b.name, comp=cc.name),
                               cc, paths[id(cc)], spec)
                 ctx.count("selection " + ("element/name" if isinstance(spec, str) else "list") + " @component")
@@ -968,11 +1024,13 @@ def run_core(ctx, r):
                      c, paths[id(c)], pick_nucs(rng, c, 3))
             ctx.case(("ref-block", b.name), nontrivial=True)
     specifier_variants(core, fail)
-    for spec in ["U", "ZR", ["U235", "FE", "U235"], [["NA"], "U"]]:
+    complement_and_getters(ctx, mir, "core: massSel vs Core.getMass", case, core, [])
+    for spec in ["U", "ZR", ["U235", "FE", "U235"], [["NA"], "U"], [], "XE"]:
         add_selection(ctx, mir, "core: massSel vs Core.getMass(selection)", case, core, [], spec)
         ctx.count("selection @core")
     for a in cut[:3]:
-        for spec in selection_specs(rng, a)[:4]:
+        complement_and_getters(ctx, mir, "core: massSel vs Assembly.getMass", dict(case, assembly=a.name), a, paths[id(a)])
+        for spec in selection_specs(rng, a)[:2] + selection_specs(rng, a)[-4:]:
             add_selection(ctx, mir, "core: massSel vs Assembly.getMass(selection)", dict(case, assembly=a.name), a, paths[id(a)], spec)
             ctx.count("selection " + ("element/name" if isinstance(spec, str) else "list") + " @assembly")
     # core-level and cut-assembly-level edits, no resync (state carried on both sides)
@@ -1207,12 +1265,13 @@ def run_generated(ctx):
             specifier_variants(o, fail)
             add_snap(ctx, mir, f"{label}: Model/Compo vs {level_of(o)}", dict(case, observed_at=level_of(o)), o, paths[id(o)], nucs)
             add_volfracs(ctx, mir, f"{label}: Node.volFrac vs getVolumeFractions", dict(case, observed_at=level_of(o)), o, paths[id(o)])
+            complement_and_getters(ctx, mir, f"{label}: massSel vs getMass", dict(case, observed_at=level_of(o)), o, paths[id(o)])
             for spec in selection_specs(rng, o):
                 add_selection(ctx, mir, f"{label}: massSel vs getMass(selection)", dict(case, observed_at=level_of(o)), o,
                               paths[id(o)], spec)
                 ctx.count("selection " + ("element/name" if isinstance(spec, str) else "list") + " @" + level_of(o))
         targets = [a] + blocks + [c for b in blocks[:2] for c in rng.sample(list(b), 2)]
-        paths = edit_sequence(ctx, mir, [a], paths, targets, ctx.pick(8, 24), label)
+        paths = edit_sequence(ctx, mir, [a], paths, targets, ctx.pick(6, 24), label)
         if idx < ctx.pick(3, 40):
             paths = mir.load([a], extra_nucs=("PU239", "AM241", "HE4", "XE135", "SM149", "KR85", "NP237", "CM244"))
             new_nuclide_script(ctx, mir, paths, a, label)
